@@ -176,8 +176,11 @@ fn build_reply(out: &mut Out, rng: &mut Rng, st: &mut Sync, thorough: bool) -> (
         last = Some(idx);
     }
     // previously generated but undelivered blocks (orphans if their parents are missing)
-    if rng.chance(1, 6) && !st.undelivered.is_empty() {
-        let k = *rng.pick(&st.undelivered);
+    if rng.chance(1, 3) && !st.undelivered.is_empty() {
+        // half of the time a block whose parent has only been announced (or not even that) so far
+        let orphans: Vec<usize> = st.undelivered.iter().cloned()
+            .filter(|i| st.case.world.nodes[*i].parent.map(|p| st.undelivered.contains(&p)).unwrap_or(false)).collect();
+        let k = if !orphans.is_empty() && rng.chance(1, 2) { *rng.pick(&orphans) } else { *rng.pick(&st.undelivered) };
         blobs.push(block_bytes(&st.case.world.nodes[k].block));
         out.count("bad:redelivery-or-orphan");
     }
